@@ -41,6 +41,11 @@ def scenarios(tier):
                 "threads": {"T1": [MENU["Df"]], "T2": [MENU["Da"]]}})
     out.append({"name": "Dff||Da two documents", "init": "meta2", "formats": FORMATS, "pids": ("p1",),
                 "threads": {"T1": [MENU["Dff"]], "T2": [MENU["Da"]]}})
+    # the pid is deleted and, by another thread, bound again WITH a new document: the delete's own removal of the pid's
+    # documents must not reach past its own completion
+    # (tag_object, not store_object: a store overlapping the delete is refused - known finding C07-R3 - and would hide this)
+    out.append({"name": "DO||t1A;M1 from p1A+meta", "init": "p1A+meta", "formats": FORMATS, "pids": ("p1",),
+                "threads": {"T1": [MENU["DO"]], "T2": [("tag", "p1", "A"), MENU["M1"]]}})
     # delete_object of a pid that has documents but NO object (it raises) beside a writer / reader of a document
     for other in ("M2", "R", "Df"):
         out.append({"name": "DO||%s pid has a document but no object" % other, "init": "meta", "formats": FORMATS, "pids": ("p1",),
